@@ -83,6 +83,8 @@ def _check_main(run, P):
     run.do(_allocatable, run, P)
     run.do(_exit, run, P)
     run.do(_move, run, P)
+    from . import c07 as _c07
+    run.do(_c07.selfdep_total, run, P, "C12.move")
     run.do(_alloc, run, P)
     run.do(_routines, run, P)
     run.do(_init_shutdown, run, P)
